@@ -26,6 +26,9 @@ structure EnvInput where
   resolves : List Nat → Bool
   /-- `q_bb(i,j)` finds every needed element inside the sparse inverse (no FULL_VECTOR branch) -/
   qbbIn : Nat → Nat → Bool
+  /-- ghost: identity of the data set (`AdjInputData` object) these facts were read from; it tags every
+      cached vector, so that a vector computed from ANOTHER input is a different term (round 3) -/
+  id : Nat := 0
 
 inductive Op
   | unknowns | residuals | sumsq | defect
@@ -35,8 +38,8 @@ deriving Repr, DecidableEq
 
 /-- provenance of the vector held in one `qxxbuf` slot -/
 inductive Prov
-  | trow (i : Nat) (reg : List Nat)    -- lower-solved row i of T for regularisation list `reg`
-  | invcol (ii : Nat)                  -- column ii (permuted) of the full inverse
+  | trow (d : Nat) (i : Nat) (reg : List Nat)  -- lower-solved row i of T for the list `reg`, factor of data set `d`
+  | invcol (d : Nat) (ii : Nat)        -- column ii (permuted) of the full inverse of data set `d`
   | empty                              -- never written since the last reset
 deriving Repr, DecidableEq
 
@@ -60,6 +63,9 @@ structure EnvState where
   ix : Bool
   minx : Option (List Nat)   -- `min_x_list` (none = nullptr)
   mtf : MTF Int Nat
+  /-- `tmpres.dim()`: work vector of `q_bb`'s FULL_VECTOR branch; re-dimensioned only under `init_q_bb`,
+      zeroed and refilled on every use (its content never survives into an answer) -/
+  tmpresDim : Nat := 0
   -- ghost
   content : Nat → Prov
   xreg : Option (List Nat)   -- regularisation for which G and x were last computed
@@ -89,7 +95,10 @@ def init (m : Option (List Nat)) : EnvState :=
              mtf := MTF.init (List.range cacheSize), content := fun _ => .empty, xreg := none,
              haveX0 := false, haveResid := false, haveQ0 := false, haveX := false } 0
 
-/-- `reset(data)`: `indbuf.erase()`, buffers emptied, `set_stage(stage_init)`; `min_x_list` survives -/
+/-- `reset(data)` (the SAME or ANOTHER input: the function does not look at the old one):
+    `indbuf.erase()`, buffers emptied (`qxxbuf[i].reset()`), `set_stage(stage_init)`;
+    `min_x_list` survives — also a list materialised by `solve_x` for the OLD number of parameters
+    (finding C04-env-allist-survives-reset); `tmpres` survives with its dimension (`init_q_bb` is set) -/
 def reset (s : EnvState) : EnvState :=
   setStage { s with mtf := s.mtf.erase, content := fun _ => .empty,
                     haveX0 := false, haveResid := false, haveQ0 := false, haveX := false, xreg := none } 0
@@ -150,7 +159,7 @@ def q0xx (inp : EnvInput) (s : EnvState) (i j : Nat) : EnvState × Out :=
   else
     let hi := if ii < jj then jj else ii
     let lo := if ii < jj then ii else jj
-    let (s, pa) := cached s (-(hi : Int)) (.invcol hi)
+    let (s, pa) := cached s (-(hi : Int)) (.invcol inp.id hi)
     (s, .q0col (s.content pa) lo)
 
 def step (inp : EnvInput) (s : EnvState) : Op → EnvState × Out
@@ -182,14 +191,17 @@ def step (inp : EnvInput) (s : EnvState) : Op → EnvState × Out
       if thrown then (s, .badReg) else
       if !s.haveX then (s, .stale "G") else
       let reg := s.xreg.getD []
-      let (s, pa) := cached s (i : Int) (.trow i reg)
-      let (s, pb) := cached s (j : Int) (.trow j reg)
+      let (s, pa) := cached s (i : Int) (.trow inp.id i reg)
+      let (s, pb) := cached s (j : Int) (.trow inp.id j reg)
       (s, .qxxSing (s.content pa) (s.content pb))
   | .qbb i j =>
     let s := ensureQ0 s
     if !s.haveQ0 then (s, .stale "q0") else
     if inp.qbbIn i j then (s, .qbbIn i j)
-    else ({ s with iqbb := false }, .qbbFull i j)
+    else
+      -- FULL_VECTOR: `if (init_q_bb) { tmpres.reset(parameters); init_q_bb = false; }  tmpres.set_zero(); …`
+      let s := if s.iqbb then { s with tmpresDim := inp.n, iqbb := false } else s
+      if s.tmpresDim != inp.n then (s, .stale "tmpres") else (s, .qbbFull i j)
   | .minxAll => ({ s with minx := none, mtf := s.mtf.erase, ix := true }, .ok)
   | .minx l => ({ s with minx := some l, mtf := s.mtf.erase, ix := true }, .ok)
   | .reset => (reset s, .ok)
